@@ -75,6 +75,30 @@ func Assert(b bool, label string) {
 	}
 }
 
+// Recover is deferred at the top of every goroutine a harness starts (and of callbacks
+// the code under test runs on its own goroutines): natively it turns a failed
+// Assert/Assume there into a recorded outcome instead of crashing the process. Under the
+// executor assertions never panic, so it does nothing.
+func Recover() {
+	switch r := recover().(type) {
+	case nil:
+	case Violation:
+		if sideOutcome == "" {
+			sideOutcome = "violation " + r.Label
+		}
+	case AssumeFailed:
+		if sideOutcome == "" {
+			sideOutcome = "assume-failed"
+		}
+	default:
+		if sideOutcome == "" {
+			sideOutcome = "panic " + strings.ReplaceAll(fmt.Sprint(r), "\n", " ")
+		}
+	}
+}
+
+var sideOutcome string
+
 // Fail is an unconditional violation.
 func Fail(label string) { panic(Violation{label}) }
 
@@ -254,6 +278,7 @@ func loadCases(path string) ([]caseSpec, error) {
 
 func runCase(i int, c caseSpec) {
 	vec, pos, params, notes, reached = c.vals, 0, c.params, nil, nil
+	sideOutcome = ""
 	fmt.Printf("VERIF-CASE %d %s\n", i, c.entry)
 	f := entries[c.entry]
 	if f == nil {
@@ -276,6 +301,9 @@ func runCase(i int, c caseSpec) {
 		}()
 		f()
 	}()
+	if sideOutcome != "" && (outcome == "ok" || !strings.HasPrefix(outcome, "violation")) {
+		outcome = sideOutcome
+	}
 	for _, n := range notes {
 		fmt.Printf("VERIF-NOTE %s\n", n)
 	}
